@@ -52,6 +52,14 @@ def rules(t):
     for s in t.stores(RC, "connection_status"):
         if s.fn.path.endswith("::from_channels"): continue
         r.site(s)
+        if not alive_at(s.fn, s.bb):
+            # a value-preserving rewrite: the status is stored unconditionally, but what is stored keeps the first reason
+            # (`Disconnected { reason: self.disconnect_reason().unwrap_or(reason) }`: for a disconnected connection this is the value it already has)
+            v_ = strip(t.stored(s))
+            if isinstance(v_, tuple) and v_[0] == "aggr" and v_[2] == "Disconnected" and v_[3]:
+                rsn = fmt(v_[3][0])
+                if re.search(r"unwrap_or(_else)?\(", rsn) and "connection_status" in rsn and "Disconnected.reason" in rsn.replace(" as ", " ").replace("as Disconnected", "Disconnected"): continue
+                if re.search(r"unwrap_or(_else)?\(", rsn) and "connection_status" in rsn and "reason" in rsn: continue
         if not alive_at(s.fn, s.bb): r.bad(f"{s.fn.path}|store", s, "connection_status is written on a path where the status may already be Disconnected (a disconnected connection could be revived / lose its first reason)")
     out.append(r)
     # b gated API: every effect happens only while not Disconnected
@@ -87,6 +95,18 @@ def rules(t):
         absent, present = map_key_edges(t, f, "connections", lambda k: same(k, eid))
         ok = any(t.edge_dominates(f, e, s.bb) for e in absent)
         ins = [c for c in t.effects("connections", {"insert"}, f)]
+        if "{closure" in f.path:
+            # decide-then-do: `(!connections.contains_key(&id)).then(|| { ..insert(id, c); ClientConnected { id } })` - the closure body runs only when the
+            # receiver of `then` is true; ids captured by the closure are resolved to what was captured
+            par = owner_fn(t, f); tag = re.search(r"\{closure#\d+\}$", f.path).group(0)
+            eid_r = resolved(t, eid, f)
+            for c_ in t.sites(par):
+                if c_.node["k"] != "call" or method_of(callee_name(c_.node)) not in ("then", "then_some") or not any(tag in fmt(y) for y in t.args(c_)[1:]): continue
+                cond = strip(t.arg(c_, 0)); neg = False
+                while isinstance(cond, tuple) and cond[0] == "un" and cond[1] == "Not": neg = not neg; cond = strip(cond[2])
+                if neg and isinstance(cond, tuple) and cond[0] == "call" and method_of(cond[1]) == "contains_key" and t.rooted_at_field(cond[2][0], "connections") and (same(cond[2][1], eid_r) or fmt(strip(cond[2][1])) == fmt(strip(eid_r))): ok = True
+            ins = [c for c in t.sites(f) if c.node["k"] == "call" and method_of(callee_name(c.node)) == "insert" and "connections" in fmt(resolved(t, t.arg(c, 0), f))]
+            eid = eid_r
         if not ok: r.bad(f"{f.path}|guard", s, "ClientConnected event not guarded by the id being absent from connections (contains_key / entry)")
         if not ins: r.bad(f"{f.path}|insert", s, "ClientConnected event without connections.insert")
         else:
@@ -94,7 +114,7 @@ def rules(t):
             if "VacantEntry" in callee_name(c0.node):
                 # slot.insert(value): the key is the one given to connections.entry(key)
                 keyok = any(same(t.arg(e_, 1), eid) for e_ in t.effects("connections", {"entry"}, f))
-            else: keyok = same(t.arg(c0, 1), eid)
+            else: keyok = same(t.arg(c0, 1), eid) or fmt(strip(resolved(t, t.arg(c0, 1), c0.fn))) == fmt(strip(eid))
             if not keyok: r.bad(f"{f.path}|id", s, "event id differs from inserted key")
     out.append(r)
     # c2 disconnect events: Some-edge of connections.remove, reason from the removed connection
@@ -104,6 +124,14 @@ def rules(t):
         r.site(s)
         f = s.fn
         rem = list(t.effects("connections", {"remove"}, f))
+        if not rem and "{closure" in f.path:
+            # `self.connections.remove(&id).map(|connection| ClientDisconnected { id, reason: connection.disconnect_reason().. })`: the closure is the Some edge
+            par = owner_fn(t, f); tag = re.search(r"\{closure#\d+\}$", f.path).group(0)
+            feeds = [c_ for c_ in t.sites(par) if c_.node["k"] == "call" and method_of(callee_name(c_.node)) in ("map", "and_then", "into_iter", "iter", "for_each", "inspect") and any(tag in fmt(y) for y in t.args(c_)[1:]) and t.mentions_call(t.arg(c_, 0), r"::remove$") and "connections" in fmt(t.arg(c_, 0))]
+            if feeds:
+                reason = t.field_of_aggr(s, "reason"); rtxt = fmt(reason)
+                if not (t.mentions_call(reason, r"RenetClient::disconnect_reason$") or "connection_status" in rtxt): r.bad(f"{f.path}|reason", s, f"reason is not the removed connection's first reason: {rtxt[:80]}")
+                continue
         if not rem: r.bad(f"{f.path}|remove", s, "ClientDisconnected without connections.remove"); continue
         if not any(f.dominates(x.bb, s.bb) for x in rem): r.bad(f"{f.path}|dom", s, "event not dominated by the removal")
         reason = t.field_of_aggr(s, "reason")
